@@ -54,6 +54,7 @@ type Ctx struct {
 	lcMemo         *bool
 	fsMemo         map[string]bool
 	cfgMemo        *bool
+	exprMemo       *bool
 }
 
 // LoadOpts selects the build configuration and an optional overlay.
